@@ -286,7 +286,12 @@ func TestC19_Enum(t *testing.T) {
 	}
 }
 
-func TestC19_Random(t *testing.T) {
+// FuzzC19: the random part under Go's coverage-guided fuzzer (thorough tier).
+func FuzzC19(f *testing.F) { f.Fuzz(rapid.MakeFuzz(c19RandomProp())) }
+
+func TestC19_Random(t *testing.T) { rapid.Check(t, c19RandomProp()) }
+
+func c19RandomProp() func(*rapid.T) {
 	allPods := objectUniverse(uniNamespaces, uniNames[:1], allLabelMaps(uniKeys, uniValues), false)
 	var svcs []metav1.Object
 	for _, ns := range uniNamespaces {
@@ -294,7 +299,7 @@ func TestC19_Random(t *testing.T) {
 			svcs = append(svcs, &corev1.Service{ObjectMeta: metav1.ObjectMeta{Namespace: ns, Name: n, ResourceVersion: "1"}})
 		}
 	}
-	rapid.Check(t, func(t *rapid.T) {
+	return func(t *rapid.T) {
 		tm := &term{}
 		switch rapid.IntRange(0, 9).Draw(t, "which") {
 		case 0:
@@ -325,5 +330,5 @@ func TestC19_Random(t *testing.T) {
 			objs = c17Universe
 		}
 		c19Run(func(msg string) { t.Fatalf("C19 violation: %s", msg) }, tm, objs, "random")
-	})
+	}
 }
